@@ -361,7 +361,8 @@ SPEC = [
     ('subplane_crop_lo', 'read.py', 'SgzReader.read_subplane', ('subscript', 'decompressed', 0, 0, 'lower'), 'Nat'),
     ('trace_guard_window', 'read.py', 'SgzReader.get_trace', ('guard', 0), 'Prop'),
     ('trace_guard_2d', 'read.py', 'SgzReader.get_trace', ('guard', 1), 'Prop'),
-    ('trace_guard_3d', 'read.py', 'SgzReader.get_trace', ('guard', 2), 'Prop'),
+    ('trace_guard_irregular', 'read.py', 'SgzReader.get_trace', ('guard', 2), 'Prop'),
+    ('trace_guard_3d', 'read.py', 'SgzReader.get_trace', ('guard', 3), 'Prop'),
     ('trace2d_min_trace', 'read.py', 'SgzReader.get_trace', ('assign', 'min_trace', 0), 'Nat'),
     ('trace2d_min_z', 'read.py', 'SgzReader.get_trace', ('assign', 'min_z', 0), 'Nat'),
     ('trace2d_max_z', 'read.py', 'SgzReader.get_trace', ('assign', 'max_z', 0), 'Nat'),
